@@ -214,7 +214,20 @@ func (ex *Exec) assumeType(pc Term, v Term, t types.Type) {
 		ex.vc.assume(tTrue, inRange(v, t), "type range")
 	case SSlice:
 		ex.vc.assume(tTrue, and(app(SBool, "<=", intLit(0), sOff(v)), app(SBool, "<=", intLit(0), sLen(v)), app(SBool, "<=", sLen(v), sCap(v)), app(SBool, "<=", sCap(v), T("4611686018427387904", SInt))), "slice shape")
+		ex.vc.assume(tTrue, ex.allocatedBefore(sBase(v)), "an incoming slice cannot point into memory allocated later")
+	case SRef:
+		ex.vc.assume(tTrue, ex.allocatedBefore(v), "an incoming pointer cannot point into memory allocated later")
+	case SIface:
+		ex.vc.assume(tTrue, ex.allocatedBefore(app(SRef, "ibox", v)), "an incoming interface cannot hold memory allocated later")
 	}
+}
+
+// allocatedBefore: a value that comes from outside (parameter, heap, call
+// result, loop-head state) cannot refer to an allocation this execution makes
+// after the point where the value was obtained. Allocation ids grow in
+// execution order.
+func (ex *Exec) allocatedBefore(r Term) Term {
+	return T(fmt.Sprintf("(=> ((_ is loc) (root %s)) (<= (locid (root %s)) %d))", r.S, r.S, ex.nLoc), SBool)
 }
 
 func (ex *Exec) doAlloc(fr *Frame, in *ssa.Alloc, pc Term, st State) State {
@@ -739,7 +752,16 @@ func (ex *Exec) doMakeSlice(fr *Frame, in *ssa.MakeSlice, pc Term, st State) Sta
 	ex.nLoc++
 	b := refLoc(ex.nLoc)
 	ex.zeroFresh(st, pc, b, el)
-	fr.vals[in] = ex.vc.def(in.Name(), mkSlice(b, intLit(0), n, c))
+	sl := ex.vc.def(in.Name(), mkSlice(b, intLit(0), n, c))
+	fr.vals[in] = sl
+	// the same fact over the arithmetic-free element addresses used by indexing and specs
+	if !isStruct(el) {
+		if _, isArr := isArray(el); !isArr {
+			so := ex.te.sortOf(el)
+			h := ex.get(st, cellKey(el), arraySort(SRef, so))
+			ex.vc.assume(pc, T(fmt.Sprintf("(forall ((i Int)) (! (= (select %s (at %s i)) %s) :pattern ((select %s (at %s i)))))", h.S, sl.S, ex.te.zero(el).S, h.S, sl.S), SBool), "fresh zero (slice view)")
+		}
+	}
 	return st
 }
 
